@@ -9,7 +9,14 @@
 (*         returned value / created operator / raised exception class,     *)
 (*    ow   <<digest of every caller-owned array>>  (fixed order),          *)
 (*    ops  <<[d, a, l]>>  dense / annotation-set / flatten-leaves identity *)
-(*         of every live operator AFTER the event, in creation order]      *)
+(*         of every live operator AFTER the event, in creation order,      *)
+(*    ab, aa  layout sweep only (0, 0 otherwise): identity of the swept    *)
+(*         ARGUMENT - bytes, shape, strides, flags of the array handed to  *)
+(*         the call and bytes of the buffer it is a view of - taken        *)
+(*         immediately before and immediately after the call]              *)
+(* In a layout-sweep chain every event is a call of ONE path with ONE      *)
+(* argument value, presented in another memory layout each time; sig does  *)
+(* not contain the layout, ow covers every layout of the value.            *)
 (* The state carries owned, ops, memo of module Persist along each path    *)
 (* and the verdict of the last event:                                      *)
 (*   arr   every caller-owned array is unchanged        (array_mutated)    *)
@@ -17,7 +24,11 @@
 (*         matrix / annotations / leaves (operator_changed,                *)
 (*         annotations_changed)                                            *)
 (*   grow  at most one operator was created, none disappeared              *)
-(*   rep   a repeated call returned the remembered result (repeat_differs) *)
+(*   argf  the argument of the call is what it was before the call         *)
+(*         (frame condition on arguments, in whatever layout)              *)
+(*   rep   a repeated call returned the remembered result (repeat_differs; *)
+(*         in a layout sweep: the result does not depend on the layout of  *)
+(*         the argument, read-only included)                               *)
 (* A rejected event does not stop the walk.                                *)
 (***************************************************************************)
 EXTENDS Integers, Sequences, Json, TLC, IOUtils
@@ -27,11 +38,12 @@ N == Len(Nodes)
 
 VARIABLES l, owned, ops, memo, v
 
-AllTrue == [arr |-> TRUE, den |-> TRUE, ann |-> TRUE, lea |-> TRUE, grow |-> TRUE, rep |-> TRUE]
+AllTrue == [arr |-> TRUE, argf |-> TRUE, den |-> TRUE, ann |-> TRUE, lea |-> TRUE, grow |-> TRUE, rep |-> TRUE]
 
 Judge(e, ow, op, m) ==
     LET k == Len(op) IN
     [arr  |-> e.ow = ow,
+     argf |-> e.aa = e.ab,
      grow |-> Len(e.ops) >= k /\ Len(e.ops) <= k + 1,
      den  |-> \A i \in 1..k: i <= Len(e.ops) => e.ops[i].d = op[i].d,
      ann  |-> \A i \in 1..k: i <= Len(e.ops) => e.ops[i].a = op[i].a,
@@ -57,6 +69,6 @@ Next == \E c \in Nodes[l].fc .. (Nodes[l].fc + Nodes[l].nc - 1):
 
 Spec == Init /\ [][Next]_<<l, owned, ops, memo, v>>
 
-Accepted == v.arr /\ v.den /\ v.ann /\ v.lea /\ v.grow /\ v.rep
+Accepted == v.arr /\ v.argf /\ v.den /\ v.ann /\ v.lea /\ v.grow /\ v.rep
 Verdict == Accepted \/ PrintT(ToJson([l |-> l, v |-> v]))
 =============================================================================
